@@ -40,7 +40,47 @@ class FuncTranslator14(FuncTranslator):
         return text
 
     # ----- statements
+    def exc_vars(self):
+        """names bound (only) to freshly constructed exception objects: name -> class"""
+        if not hasattr(self, "_exc_vars"):
+            from translate.pylogic import EXN
+            d, bad = {}, set()
+            for n in ast.walk(self.fn):
+                if isinstance(n, ast.Assign) and len(n.targets) == 1 and isinstance(n.targets[0], ast.Name):
+                    v = n.value
+                    nm = n.targets[0].id
+                    if isinstance(v, ast.Call) and isinstance(v.func, ast.Name) and v.func.id in EXN:
+                        if d.get(nm, v.func.id) != v.func.id:
+                            bad.add(nm)
+                        d[nm] = v.func.id
+                    elif nm in d:
+                        bad.add(nm)
+            self._exc_vars = {k: v for k, v in d.items() if k not in bad}
+        return self._exc_vars
+
+    def strip(self, stmts, live_after):
+        # `error = ValueError(message)` only feeds `raise error` / logger calls: not a value of the model
+        ev = self.exc_vars()
+        stmts = [st for st in stmts if not (isinstance(st, ast.Assign) and len(st.targets) == 1
+                                           and isinstance(st.targets[0], ast.Name) and st.targets[0].id in ev)]
+        return super().strip(stmts, live_after)
+
+    def exn_of(self, e):
+        if isinstance(e, ast.Name) and e.id in self.exc_vars():
+            return self.exc_vars()[e.id]
+        return super().exn_of(e)
+
     def seq(self, stmts, rest):
+        if stmts and isinstance(stmts[0], ast.Assign) and len(stmts[0].targets) == 1 \
+                and isinstance(stmts[0].targets[0], ast.Attribute) and isinstance(stmts[0].targets[0].value, ast.Name) \
+                and stmts[0].targets[0].value.id == "self" and getattr(self, "is_method", False):
+            # self.attr = e : later reads of self.attr see the new value (the parameter self_attr is shadowed)
+            st = stmts[0]
+            nm = "self_" + st.targets[0].attr
+            if nm not in self.extra_params:
+                self.extra_params.append(nm)
+            tail = list(stmts[1:])
+            return "bind %s (fun %s =>\n%s)" % (self.expr(st.value), nm, self.seq(tail, rest))
         if stmts and isinstance(stmts[0], ast.AugAssign):
             st = stmts[0]
             if not isinstance(st.target, ast.Name):
@@ -60,10 +100,29 @@ class FuncTranslator14(FuncTranslator):
             return "(bind2 py_getitem_x %s %s)" % (self.expr(e.value), self.expr(s))
         return super().subscript(e)
 
+    def typename_x(self, t):
+        if isinstance(t, ast.Name):
+            q = self.tr.qualify(self.mod, t.id, self.locals)
+            if q == "numpy.ndarray":
+                return "TNumpyNdarray"
+        return "TB %s" % self.typename(t) if " " not in self.typename(t) else "TB (%s)" % self.typename(t)
+
     def call(self, e):
         f = e.func
         if isinstance(f, ast.Name) and f.id not in self.locals and f.id in self.fun_oracles:
             return self.fun_oracle_call(f.id, e)
+        if isinstance(f, ast.Name) and f.id == "isinstance" and f.id not in self.locals and len(e.args) == 2:
+            t = e.args[1]
+            ts = t.elts if isinstance(t, ast.Tuple) else [t]
+            if any(isinstance(x, ast.Name) and self.tr.qualify(self.mod, x.id, self.locals) == "numpy.ndarray" for x in ts):
+                return "(bind %s (fun x_ => py_isinstance_x x_ [%s]))" % (
+                    self.expr(e.args[0]), "; ".join(self.typename_x(x) for x in ts))
+        if isinstance(f, ast.Name) and f.id == "sum" and f.id not in self.locals and f.id not in self.mod.imports \
+                and f.id not in self.mod.funcs and len(e.args) == 1 and not e.keywords and isinstance(e.args[0], ast.GeneratorExp):
+            g = e.args[0]
+            lc = ast.ListComp(elt=g.elt, generators=g.generators)
+            ast.copy_location(lc, g)
+            return "(bind %s py_sum)" % self.listcomp(lc)
         if isinstance(f, ast.Name) and f.id not in self.locals:
             q = self.tr.qualify(self.mod, f.id, self.locals)
             if q in CALLS14 and q not in CALLS:
@@ -129,7 +188,7 @@ class Translator14(Translator):
         self.defs.append((coq_name, text))
         return coq_name
 
-    def translate_slice(self, qual, coq_name, stop_before, returns, fun_oracles=None):
+    def translate_slice(self, qual, coq_name, stop_before, returns, fun_oracles=None, stop_pred=None):
         """Translate the statements of function `qual` that precede the first statement of type
         `stop_before` (e.g. ast.For), followed by `return (<returns>...)`, as a function of the
         original parameters."""
@@ -140,12 +199,12 @@ class Translator14(Translator):
         body = []
         hit = False
         for st in fn.body:
-            if isinstance(st, stop_before):
+            if (stop_pred(st) if stop_pred is not None else isinstance(st, stop_before)):
                 hit = True
                 break
             body.append(st)
         if not hit:
-            raise Unsupported("%s: no %s statement" % (qual, stop_before.__name__))
+            raise Unsupported("%s: no stop statement" % (qual,))
         ret = ast.Return(value=ast.Tuple(elts=[ast.Name(id=n, ctx=ast.Load()) for n in returns], ctx=ast.Load()))
         new = copy.copy(fn)
         new.body = list(body) + [ret]
